@@ -78,3 +78,30 @@ Proof. reflexivity. Qed.
 Lemma dotted_accepted sc n m rest ms :
   shift_arg (MArg sc (n :: m :: rest) ms) = Ok (MArg sc (m :: rest) ms).
 Proof. reflexivity. Qed.
+
+(* ------------------------------------------------------------------ properties of the SPEC's modifiers *)
+From PV Require Import Lib.Inst.
+
+Lemma map_flat_map {A B C} (g : B -> C) (f : A -> list B) l :
+  map g (flat_map f l) = flat_map (fun x => map g (f x)) l.
+Proof. induction l as [|x l IH]; simpl; [reflexivity|]. rewrite map_app, IH. reflexivity. Qed.
+
+(* the specification does not see the spelling: a.rest(ms) and a(rest(ms)) are the same entries *)
+Lemma spec_spelling env a : flat_arg env (nest a) = flat_arg env a.
+Proof.
+  destruct a as [sc t ms]. destruct t as [|n [|m rest]]; try reflexivity.
+  cbn [nest flat_arg flat_map]. rewrite app_nil_r. cbn [flat_map]. rewrite app_nil_r.
+  cbn [flat_arg]. rewrite map_flat_map. apply flat_map_ext. intros [e|l].
+  - reflexivity.
+  - rewrite map_map. apply map_ext. intros [[p e] w]. reflexivity.
+Qed.
+
+Lemma find_app {A} (f : A -> bool) l1 l2 :
+  find f (l1 ++ l2) = match find f l1 with Some x => Some x | None => find f l2 end.
+Proof. induction l1 as [|x l1 IH]; simpl; [reflexivity|]. destruct (f x); [reflexivity | exact IH]. Qed.
+
+(* outermost wins in the specification: entries from outside come first and the first match counts *)
+Lemma spec_outermost a outer inner :
+  attr_lookup a (outer ++ inner) =
+  match attr_lookup a outer with Some x => Some x | None => attr_lookup a inner end.
+Proof. unfold attr_lookup. apply find_app. Qed.
